@@ -464,7 +464,7 @@ class CFG(object):
         return ins, outs
 
     # reaching definitions ----------------------------------------------------
-    def reaching_defs(self):
+    def reaching_defs(self, avoid_edge=None):
         """For every node id: dict var -> frozenset of defining node ids
         (entry id for parameters / free)."""
         defs_at = {}
@@ -487,7 +487,9 @@ class CFG(object):
             nid = work.pop(0)
             inwork.discard(nid)
             merged = {}
-            for (p, _) in self.pred[nid]:
+            for (p, _lab) in self.pred[nid]:
+                if avoid_edge is not None and avoid_edge(p, _lab, nid):
+                    continue
                 for k, v in OUT[p].items():
                     merged[k] = merged.get(k, frozenset()) | v
             IN[nid] = merged
